@@ -96,7 +96,7 @@ def run_one(args):
     res = dict(mu, results={})
     for prop in props_for(mu['file']):
         t0 = time.time()
-        r = subprocess.run(["/verif/tools/with_src.sh", d + "/src", "check", "--property", prop], env=env, capture_output=True, text=True)
+        r = subprocess.run([os.environ.get("VERIF_DIR", "/verif") + "/tools/with_src.sh", d + "/src", "check", "--property", prop], env=env, capture_output=True, text=True)
         res['results'][prop] = dict(exit=r.returncode, secs=round(time.time() - t0, 1))
         if r.returncode == 2 and "build failed" in r.stderr:
             res['status'] = "does-not-compile"
